@@ -120,6 +120,26 @@ class _Log(list):
             super().append((e[1], e[2]))
 
 
+class _XLog:
+    """The same log kept in a file, for parts that run in a process pool."""
+
+    def __init__(self) -> None:
+        self.f = mp.FileLog(boot.fresh_path("c06log") + ".jsonl")
+
+    def append(self, e):
+        if e[0] == "start":
+            self.f.append([e[1], e[2]])
+
+    def __iter__(self):
+        return iter([tuple(x) for x in self.f.read()])
+
+    def __len__(self):
+        return len(self.f.read())
+
+    def __delitem__(self, key):
+        self.f.clear()
+
+
 def masks_of(folder, names):
     from pipefunc.map._run_info import RunInfo
     from pipefunc.map._storage_array._base import StorageBase
@@ -156,8 +176,16 @@ def body_parts(data) -> Outcome:
     any_slice = any(isinstance(k, dict) for p, _ in parts for k in p.values())
     out.labels = [f"parts:{min(len(parts), 6)}", f"axes:{len(axes)}"] + (["slice"] if any_slice else []) + [l for l in mp.labels(prog) if l.startswith("storage:")]
     out.nontrivial = len(parts) >= 2 and any_slice and order != sorted(order) and len(carrying) >= 2
-    log = _Log()
+    # every third partition whose storages live outside the parent's memory continues in a process pool after its
+    # first (sequential) part: what the workers store must reach the folder just the same
+    stor = prog["storage"]
+    pool_ok = ({stor} if isinstance(stor, str) else set(stor.values())) <= {"file_array", "shared_memory_dict"}
+    use_pool = pool_ok and (data["order_key"] >> 15) % 3 == 0 and len(parts) >= 2
+    if use_pool:
+        out.labels.append("later-parts-in-a-process-pool")
+    log = _XLog() if use_pool else _Log()
     folder = boot.fresh_path("c06")
+    pools: list = []
     try:
         try:
             pipe = mp.build_pipeline(prog, log)
@@ -173,11 +201,20 @@ def body_parts(data) -> Outcome:
         for step, pi in enumerate(order):
             fi, sel = parts[pi]
             del log[:]
+            kw_step = dict(kw)
+            if use_pool and step >= 1:
+                import multiprocessing
+                from concurrent.futures import ProcessPoolExecutor
+
+                pools.append(ProcessPoolExecutor(max_workers=2, mp_context=multiprocessing.get_context("fork")))
+                kw_step.update(parallel=True, executor=pools[-1])
             try:
-                pipe.map(inputs, fixed_indices={a: dec(k) for a, k in fi.items()}, cleanup=(step == 0), **kw)
+                pipe.map(inputs, fixed_indices={a: dec(k) for a, k in fi.items()}, cleanup=(step == 0), **kw_step)
             except Exception as e:
                 out.fail(exc_bucket(e, "part-refused"), f"part {fi}: {exc_detail(e)}")
                 return out
+            while pools:
+                pools.pop().shutdown(wait=True)
             for combo in itertools.product(*[sorted(sel[a]) for a in axes]):
                 selected_combos.add(combo)
             # expected calls of this part
@@ -246,6 +283,10 @@ def body_parts(data) -> Outcome:
             out.fail(exc_bucket(e, "final-full-run-raised"), exc_detail(e))
         del done
     finally:
+        while pools:
+            pools.pop().shutdown(wait=True)
+        if use_pool:
+            log.f.clear()
         gc.collect()
         boot.rm(folder)
     return out
